@@ -42,4 +42,85 @@ theorem expression_statement_echoed (P : Platform) (f : Nat) (e : Expr) (env : N
   · rw [evalS]; simp only [guardErr, ER.seq, Res.bind, h0, he]; simp [guardErr, ER.seq, Res.bind, h1, ht]
   · intro he'; rw [evalS]; simp only [guardErr, ER.seq, Res.bind, h0, he']; simp
 
+/-- the text of a session: each line followed by a newline -/
+def sessionText (ls : List (List Char)) : List Char := ls.flatMap (· ++ ['\n'])
+
+/-- a well-formed input line: no newline inside, no carriage return at its end -/
+def PlainLine (l : List Char) : Prop := '\n' ∉ l ∧ l.getLast? ≠ some '\r'
+
+theorem takeWhile_line (l rest : List Char) (h : '\n' ∉ l) :
+    (l ++ '\n' :: rest).takeWhile (· ≠ '\n') = l ∧ (l ++ '\n' :: rest).dropWhile (· ≠ '\n') = '\n' :: rest := by
+  induction l with
+  | nil => simp
+  | cons c l ih =>
+    have hc : c ≠ '\n' := fun e => h (by simp [e])
+    have hl : '\n' ∉ l := fun e => h (by simp [e])
+    have hp : (decide (c ≠ '\n')) = true := by simp [hc]
+    obtain ⟨i1, i2⟩ := ih hl
+    constructor
+    · show List.takeWhile _ (c :: (l ++ '\n' :: rest)) = c :: l
+      rw [List.takeWhile_cons]; simp only [hp, if_true]; rw [i1]
+    · show List.dropWhile _ (c :: (l ++ '\n' :: rest)) = '\n' :: rest
+      rw [List.dropWhile_cons]; simp only [hp, if_true]; exact i2
+
+theorem scanLines_go_session (ls : List (List Char)) (hl : ∀ l ∈ ls, PlainLine l) :
+    ∀ f, (sessionText ls).length + 1 ≤ f → scanLines.go f (sessionText ls) = ls := by
+  induction ls with
+  | nil => intro f _; cases f <;> simp [sessionText, scanLines.go]
+  | cons l ls ih =>
+    intro f hf
+    have hp := hl l (by simp)
+    have hs : sessionText (l :: ls) = l ++ '\n' :: sessionText ls := by simp [sessionText]
+    rw [hs] at hf ⊢
+    cases f with
+    | zero => simp at hf
+    | succ f =>
+      have hne : l ++ '\n' :: sessionText ls ≠ [] := by simp
+      obtain ⟨ht, hd⟩ := takeWhile_line l (sessionText ls) hp.1
+      have hrec := ih (fun l' h' => hl l' (by simp [h'])) f (by simp at hf; omega)
+      cases hcase : l ++ '\n' :: sessionText ls with
+      | nil => exact absurd hcase hne
+      | cons c cs =>
+        rw [scanLines.go]
+        · rw [← hcase]
+          simp only [ht, hd, hrec]
+          simp [hp.2]
+        · simp
+
+/-- a session typed as lines is split into exactly those lines -/
+theorem scanLines_session (ls : List (List Char)) (hl : ∀ l ∈ ls, PlainLine l) :
+    scanLines (sessionText ls) = ls := scanLines_go_session ls hl _ (Nat.le_refl _)
+
+/-- **C20, whole sessions.**  Whatever lines were typed — failing or not —, the session's stdout is the
+    prompt followed by each line's own response, in order, then the final prompt; the response
+    to a line is what the same line answers as the only line of a fresh session. -/
+theorem session_stdout (P : Platform) (fuel : Nat) (ls : List (List Char)) (hl : ∀ l ∈ ls, PlainLine l) :
+    (repl P fuel (sessionText ls)).1 = ls.flatMap (fun l => promptText ++ (run P fuel l true []).out) ++ promptText := by
+  rw [repl_lines_independent, scanLines_session ls hl]
+
+theorem session_stderr (P : Platform) (fuel : Nat) (ls : List (List Char)) (hl : ∀ l ∈ ls, PlainLine l) :
+    (repl P fuel (sessionText ls)).2 = ls.flatMap (fun l => (run P fuel l true []).stderr) := by
+  rw [repl_stderr_per_line, scanLines_session ls hl]
+
+/-- a probe line after any history answers exactly as in a fresh session:
+    the session's stdout is the history's stdout (without its final prompt) followed by the fresh session's stdout -/
+theorem later_line_answers_as_fresh (P : Platform) (fuel : Nat) (hist : List (List Char)) (probe : List Char)
+    (hh : ∀ l ∈ hist, PlainLine l) (hp : PlainLine probe) :
+    (repl P fuel (sessionText (hist ++ [probe]))).1 =
+      hist.flatMap (fun l => promptText ++ (run P fuel l true []).out) ++ (repl P fuel (sessionText [probe])).1 ∧
+    (repl P fuel (sessionText (hist ++ [probe]))).2 =
+      (repl P fuel (sessionText hist)).2 ++ (repl P fuel (sessionText [probe])).2 := by
+  have h1 : ∀ l ∈ hist ++ [probe], PlainLine l := by
+    intro l hl; rcases List.mem_append.1 hl with h | h
+    · exact hh l h
+    · simp at h; subst h; exact hp
+  have h2 : ∀ l ∈ [probe], PlainLine l := by intro l hl; simp at hl; subst hl; exact hp
+  rw [session_stdout P fuel _ h1, session_stdout P fuel _ h2, session_stderr P fuel _ h1, session_stderr P fuel _ hh,
+    session_stderr P fuel _ h2]
+  simp [List.flatMap_append, List.append_assoc]
+
+/-- the premises are satisfiable: a failing line followed by a probe -/
+example : PlainLine "1 +;".toList ∧ PlainLine "1 + 2;".toList := by
+  constructor <;> (constructor <;> decide)
+
 end Borno.Props.C20
